@@ -49,6 +49,13 @@ func applyProfile(g *Gen, profile string) {
 		g.PRequired = 20
 		g.Kinds = []int{KBool, KStr, KInt, KFloat, KStrOpt, KIntOpt, KFloatOpt, KStrRep}
 		g.MaxDepth = 1
+	case "bundle":
+		g.PMalformed = 0
+		g.PRequired = 0
+		g.Modes = []int{1}
+		g.PSingleLetter = 80
+		g.MaxOpts = 6
+		g.UModes = []int{-1, 0, 1, 2, 2}
 	case "soup":
 		g.PMalformed = 90
 		g.MaxArgv = 14
@@ -123,6 +130,59 @@ func genArgvFor(g *Gen, profile string, p *ProgDef) []string {
 			out = append(out, tok)
 			if o.Kind > KIncr && !attach && g.pct(80) {
 				out = append(out, g.valueFor(o.Kind))
+			}
+		}
+		return out
+	case "bundle":
+		path := []*CmdDef{p.Root}
+		out := []string{}
+		n := 1 + g.r.Intn(4)
+		for i := 0; i < n; i++ {
+			vis := visibleOpts(path, p)
+			letters := []string{}
+			kinds := map[string]int{}
+			for _, o := range vis {
+				for _, k := range optKeys(o) {
+					if len([]rune(k)) == 1 && k != "-" {
+						letters = append(letters, k)
+						kinds[k] = o.Kind
+					}
+				}
+			}
+			letters = append(letters, "Q", "W")
+			switch {
+			case g.pct(70):
+				b := "-"
+				m := 1 + g.r.Intn(4)
+				last := ""
+				for j := 0; j < m; j++ {
+					last = letters[g.r.Intn(len(letters))]
+					b += last
+				}
+				if g.pct(25) {
+					b += "=" + g.valueFor(kinds[last])
+				}
+				out = append(out, b)
+				for j := g.r.Intn(3); j > 0; j-- {
+					switch g.r.Intn(4) {
+					case 0:
+						out = append(out, g.pick(intPool))
+					case 1:
+						out = append(out, g.pick(kvPool))
+					case 2:
+						out = append(out, g.pick(floatPool))
+					default:
+						out = append(out, g.pick(wordPool))
+					}
+				}
+			case g.pct(30) && len(path[len(path)-1].Cmds) > 0:
+				c := path[len(path)-1].Cmds[g.r.Intn(len(path[len(path)-1].Cmds))]
+				out = append(out, c.Name)
+				path = append(path, c)
+			case g.pct(30):
+				out = append(out, "--")
+			default:
+				out = append(out, g.pick(wordPool))
 			}
 		}
 		return out
